@@ -64,6 +64,9 @@ def check_case(v, case, obs):
     closed = False
     ndisc = 0
     peer_disc = False
+    # servers (configuration of 5+ fields): field 5 != 0 = the CONNECT asked for a non-zero session expiry
+    nonzero_session = v == 5 and len(fields[0]) > 5 and fields[0][5] != 0
+    is_open_before = True
     stops = 0
     ctl_arrivals = []         # kinds in arrival order (only packets with a unique kind in the case)
     kinds_in_case = collections.Counter(KIND_OF_TPL[o[1]] for o in ops if o[0] == 1 and o[1] in KIND_OF_TPL)
@@ -93,6 +96,14 @@ def check_case(v, case, obs):
             hdone[op[1]] = op[2]
         if closed and wire:
             bad.append("P4 written after close at op %d" % (n + 1))
+        if op[0] == 1 and op[1] == 9 and v == 5 and len(op) > 3 and op[3] != 0 and nonzero_session and is_open_before \
+                and not stops and any(t == 0xE0 for (t, _, _) in wire):
+            # a DISCONNECT that changes the Session Expiry Interval of a session whose CONNECT asked for a
+            # non-zero one is valid [MQTT-3.14.2-22]: the endpoint has received the peer's DISCONNECT and must
+            # not write its own (the operation is this one packet: whatever is written answers it)
+            bad.append("P5 a valid DISCONNECT of the peer (Session Expiry Interval on a session whose CONNECT asked "
+                       "for a non-zero one) was answered with a DISCONNECT (op %d)" % (n + 1))
+        is_open_before = is_open
 
         def do_ack(t, pid, r, final):
             """returns False if the ack cannot be matched yet (handler invoked later in this op)"""
@@ -158,7 +169,7 @@ def check_case(v, case, obs):
         for (c, kind) in ps:
             if kinds_in_case[kind] == 1:
                 inv_kinds.append(kind)
-        if op[0] == 1 and op[1] == 9 and v == 5 and op[3] == 0:
+        if op[0] == 1 and op[1] == 9 and v == 5 and (op[3] == 0 or nonzero_session):
             peer_disc = True
         if op[0] == 1 and op[1] == 9 and v == 3:
             peer_disc = True
